@@ -81,6 +81,16 @@ Section Sim.
     Lemma ev_ESub : forall rho a i s, EV reg c rho (ESub a i) s =
       obind W (EV reg c rho a s) (fun va s1 => obind W (EV reg c rho i s1) (fun vi s2 => Some (subscript tbl getitem va vi, s2))).
     Proof. reflexivity. Qed.
+    Lemma ev_EConst : forall rho k s, EV reg c rho (EConst k) s = Some (Val (vconst k), s).
+    Proof. reflexivity. Qed.
+    Lemma ev_ELam : forall rho ps b s, EV reg c rho (ELam ps b) s = Some (Val (VClos ps b rho), s).
+    Proof. reflexivity. Qed.
+    Lemma evl_nil : forall rho s, EVL reg c rho ENil s = Some (Val [], s).
+    Proof. reflexivity. Qed.
+    Lemma eva_nil : forall rho s, EVA reg c rho ANil s = Some (Val [], s).
+    Proof. reflexivity. Qed.
+    Lemma evk_nil : forall rho s, EVK reg c rho KNil s = Some (Val [], s).
+    Proof. reflexivity. Qed.
     Lemma ev_EName : forall rho x s, EV reg c rho (EName x) s =
       Some (match LC reg s rho x with Some v => Val v | None => Raise (XName x) end, s).
     Proof. reflexivity. Qed.
@@ -449,6 +459,349 @@ Section Sim.
                     (Forall2_app (self_list_rel p mself) Hvs) Hks Hs2) as [H1 H2].
       destruct (call_user W callv c (self_list p mself ++ vs) ks s2), (call_user W callv c (self_list p mself ++ vs') ks' s2').
       apply rsim_ret; assumption.
+    Qed.
+
+    (* ---- the simulation, by mutual induction on the syntax *)
+    Definition SimE (e : expr) : Prop :=
+      dom p e = true -> forall k rho s s', srel s s' -> FIXED s' rho ->
+        rsim vrel (EV false cb rho e s) (EV true cb' rho (fst (rw p k e)) s').
+    Definition SimL (es : exprs) : Prop :=
+      dom_list p es = true -> forall k rho s s', srel s s' -> FIXED s' rho ->
+        rsim (Forall2 vrel) (EVL false cb rho es s) (EVL true cb' rho (fst (rw_list p k es)) s') /\
+        (forall o, rsim vrel (EVB false cb o rho es s) (EVB true cb' o rho (fst (rw_list p k es)) s')) /\
+        rsim eq (EVC false cb rho es s) (EVC true cb' rho (fst (rw_list p k es)) s').
+    Definition SimA (a : args) : Prop :=
+      dom_args p a = true -> forall k rho s s', srel s s' -> FIXED s' rho ->
+        rsim (Forall2 vrel) (EVA false cb rho a s) (EVA true cb' rho (fst (rw_args p k a)) s') /\
+        (has_star a = false -> forall n i, n < k ->
+           site_pos_sim n i a rho (EVA false cb rho a s) (EVL true cb' rho (fst (rw_pos p n i k a)) s')).
+    Definition SimK (a : kws) : Prop :=
+      dom_kws p a = true -> forall k rho s s', srel s s' -> FIXED s' rho ->
+        rsim (kw_rel p) (EVK false cb rho a s) (EVK true cb' rho (fst (rw_kws p k a)) s') /\
+        (forallb (kw_named_ok p) (kw_keys a) = true -> nodup_kwnames (kw_keys a) = true -> forall n, n < k ->
+           site_kw_sim n a rho (EVK false cb rho a s) (EVL true cb' rho (fst (rw_kwparts p n k a)) s')).
+
+    Lemma items_rel : forall v v', vrel v v' ->
+      match items v, items v' with Some l, Some l' => Forall2 vrel l l' | None, None => True | _, _ => False end.
+    Proof.
+      intros v v' H. destruct H; simpl; auto. destruct k as [|[|k]]; simpl; auto.
+    Qed.
+
+    Lemma dict_item_rel : forall x x', vrel x x' ->
+      match dict_item x, dict_item x' with
+      | Some (k, v), Some (k', v') => k = k' /\ vrel v v'
+      | None, None => True
+      | _, _ => False
+      end.
+    Proof.
+      intros x x' H. destruct H as [z|z| |z|z|z|k a a' Ha|? ? ? ? ? ?|q|Hm]; simpl; auto.
+      destruct k as [|[|k]]; simpl; auto.
+      destruct Ha as [|u u' r r' Hu Hr]; simpl; auto.
+      destruct Hr as [|w w' r r' Hw Hr]; simpl; auto.
+      destruct Hr; simpl; auto.
+      rewrite (vrel_shape p _ _ Hu). destruct (shape u'); simpl; auto.
+    Qed.
+
+    Lemma dict_items_rel : forall l l', Forall2 vrel l l' ->
+      match dict_items l, dict_items l' with Some a, Some b => kw_rel p a b | None, None => True | _, _ => False end.
+    Proof.
+      induction 1 as [|v v' l l' Hv Hl IH]; simpl; [constructor|].
+      pose proof (dict_item_rel _ _ Hv) as Hi.
+      destruct (dict_item v) as [[k a]|], (dict_item v') as [[k' a']|]; try contradiction; auto.
+      destruct (dict_items l), (dict_items l'); try contradiction; auto.
+      destruct Hi as [-> Ha]. constructor; auto.
+    Qed.
+
+    Lemma unpack_dict_rel : forall v v', vrel v v' ->
+      match unpack_dict v, unpack_dict v' with Some a, Some b => kw_rel p a b | None, None => True | _, _ => False end.
+    Proof.
+      intros v v' H. destruct H; simpl; auto. destruct k as [|[|[|k]]]; simpl; auto. apply dict_items_rel. assumption.
+    Qed.
+
+    Lemma key_part_rel : forall v v', vrel v v' -> key_part v = key_part v'.
+    Proof.
+      intros v v' H. pose proof (vrel_shape p _ _ H) as Hsh. destruct H; try reflexivity.
+      unfold key_part. rewrite Hsh. reflexivity.
+    Qed.
+    Lemma key_of_rel : forall l l', Forall2 vrel l l' -> key_of l = key_of l'.
+    Proof. induction 1; simpl; auto. rewrite (key_part_rel _ _ H), IHForall2. reflexivity. Qed.
+
+    Lemma subscript_rel : forall v v' i i', vrel v v' -> vrel i i' ->
+      out_rel vrel (subscript tbl getitem v i) (subscript tbl getitem v' i').
+    Proof.
+      intros v v' i i' Hv Hi.
+      assert (Hg : out_rel vrel (lift (getitem (shape v) (shape i))) (lift (getitem (shape v') (shape i')))).
+      { rewrite (vrel_shape p _ _ Hv), (vrel_shape p _ _ Hi). apply orel_lift. }
+      destruct Hv as [z|z| |z|z|z|k a a' Ha|? ? ? ? ? ?|q|Hm]; try exact Hg.
+      destruct q; try exact Hg. unfold subscript.
+      destruct Hi as [z|z| |z|z|z|k a a' Ha|? ? ? ? ? ?|q|Hm]; simpl; auto.
+      destruct k as [|[|k]]; simpl; auto.
+      rewrite (key_of_rel _ _ Ha). destruct (key_of a'); simpl; auto. destruct (tbl l); simpl; auto. apply vrel_inj.
+    Qed.
+
+    Lemma ev_lookup_call : forall n key e' rho s0 s', srel s0 s' ->
+      EV true cb' rho (lookup_call p n key e') s' =
+      obind W (EV true cb' rho e' s')
+            (fun v' s1' => Some (Val (VTy (typeof (subtle (an p) key) (shape v'))), assign W s1' rho (NTmp n key) v')).
+    Proof.
+      intros n key e' rho s0 s' Hs. unfold lookup_call. rewrite ev_ECall, ev_EName.
+      assert (Hsp : special p (type_name p key) = true) by (unfold type_name; destruct (subtle (p_anal p) key); reflexivity).
+      destruct (lc_special s0 s' rho (type_name p key) true Hs Hsp) as [_ ->]. 
+      assert (Hg : genv p ugl mself true (type_name p key) = Some (VPrim (if subtle (an p) key then PSubtler else PType))).
+      { unfold type_name, an. destruct (subtle (p_anal p) key); reflexivity. }
+      rewrite Hg. cbn [obind]. rewrite eva_cons, ev_ENamed.
+      destruct (EV true cb' rho e' s') as [[[v|x] s1]|]; cbn [obind]; try reflexivity.
+      rewrite eva_nil. cbn [obind]. rewrite evk_nil. cbn [obind].
+      unfold apply_val. destruct (subtle (an p) key); reflexivity.
+    Qed.
+
+    Lemma ev_kwpart : forall n kn e' rho s0 s', srel s0 s' ->
+      EV true cb' rho (ETuple (ECons (EConst (CStr kn)) (ECons (lookup_call p n (KKw (Some kn)) e') ENil))) s' =
+      obind W (EV true cb' rho e' s')
+            (fun v' s1' => Some (Val (VSeq 1 [VStr kn; VTy (typeof (subtle (an p) (KKw (Some kn))) (shape v'))]),
+                                 assign W s1' rho (NTmp n (KKw (Some kn))) v')).
+    Proof.
+      intros n kn e' rho s0 s' Hs. rewrite ev_ETuple, evl_cons, ev_EConst. cbn [obind].
+      rewrite evl_cons, (ev_lookup_call n (KKw (Some kn)) e' rho s0 s' Hs).
+      destruct (EV true cb' rho e' s') as [[[v|x] s1]|]; cbn [obind]; try reflexivity.
+      all: try (rewrite evl_nil; reflexivity).
+    Qed.
+
+    Lemma Forall2_rev : forall A B (R : A -> B -> Prop) l l', Forall2 R l l' -> Forall2 R (rev l) (rev l').
+    Proof. induction 1; simpl; [constructor|]. apply Forall2_app; auto. Qed.
+
+    Lemma binder_not_special : forall x, binder_ok p x = true -> special p x = false /\ is_tmp x = false /\ rw_name p x = x.
+    Proof.
+      intros x H. destruct (binder_ok_user _ _ H) as (i & -> & Hr & Ht). repeat split; auto.
+      simpl in H |- *. bsplit. rewrite H, H1. simpl in H0. rewrite H0. reflexivity.
+    Qed.
+
+    Lemma mem_okey_in : forall k l, mem_okey k l = false -> ~ In (KKw k) (map KKw l).
+    Proof.
+      induction l; simpl; intros H Hin; auto. apply orb_false_iff in H. destruct H as [H1 H2].
+      destruct Hin as [Heq|Hin]; [|apply (IHl H2 Hin)].
+      injection Heq as ->. assert (okey_eqb k k = true) by (apply okey_eqb_eq; reflexivity). congruence.
+    Qed.
+
+    Lemma fixed_assign : forall s rho x v, FIXED s rho -> FIXED (assign W s rho x v) rho.
+    Proof. intros. eapply tgt_fixed_ext; [apply (FP_assign W 0 rho s x v H) | exact H]. Qed.
+    Lemma fixed_bind_in : forall s rho f x v, FIXED s rho -> FIXED (bind_in W s f x v) rho.
+    Proof. intros. eapply tgt_fixed_ext; [apply ext_bind_in | assumption]. Qed.
+
+    Ltac rwstep := cbn [rw rw_list rw_args rw_kws rw_pos rw_kwparts]; dlet; nrm; cbn [fst snd].
+
+    Lemma comp_loop_sim : forall elt x conds rho ke kc fid,
+      binder_ok p x = true ->
+      (forall k rho s s', srel s s' -> FIXED s' rho -> rsim vrel (EV false cb rho elt s) (EV true cb' rho (fst (rw p k elt)) s')) ->
+      (forall k rho s s', srel s s' -> FIXED s' rho -> rsim eq (EVC false cb rho conds s) (EVC true cb' rho (fst (rw_list p k conds)) s')) ->
+      forall l l', Forall2 vrel l l' -> forall acc acc' sc sc', Forall2 vrel acc acc' -> srel sc sc' -> FIXED sc' (fid :: rho) ->
+      rsim vrel (comp_loop false cb rho elt x conds fid l acc sc)
+                (comp_loop true cb' rho (fst (rw p ke elt)) x (fst (rw_list p kc conds)) fid l' acc' sc').
+    Proof.
+      intros elt x conds rho ke kc fid Hx He Hc. destruct (binder_not_special x Hx) as (Hsp & Htmp & _).
+      induction 1 as [|v v' l l' Hv Hl IH]; intros acc acc' sc sc' Hacc Hs Ht.
+      - simpl. split; auto. simpl. constructor. apply Forall2_rev. assumption.
+      - cbn [comp_loop].
+        eapply rsim_bind; [apply Hc; [apply bind_in_rel; auto | apply fixed_bind_in; auto]|].
+        intros ok ok' s1 s1' E E' <- Hs1.
+        pose proof (stepRC _ _ _ _ _ (fixed_bind_in _ _ _ _ _ Ht) E') as Ht1.
+        destruct ok.
+        + eapply rsim_bind; [apply He; auto|].
+          intros ve ve' s2 s2' E2 E2' Hve Hs2. destruct (stepR _ _ _ _ _ Ht1 E2') as [Ht2 _].
+          apply IH; auto.
+        + apply IH; auto.
+    Qed.
+
+    Lemma sim_all : (forall e, SimE e) /\ (forall es, SimL es) /\ (forall a, SimA a) /\ (forall a, SimK a).
+    Proof.
+      apply expr_mutind; unfold SimE, SimL, SimA, SimK.
+      - (* EConst *) intros c Hd k rho s s' Hs Ht. cbn [rw fst]. rewrite !ev_EConst. apply rsim_ret; auto.
+        destruct c; simpl; constructor.
+      - (* EName *) intros x Hd k rho s s' Hs Ht. cbn [rw fst]. rewrite !ev_EName. apply rsim_ret; auto.
+        simpl in Hd. unfold mention_ok in Hd. bsplit.
+        assert (Hcase : rw_name p x = x \/ exists i, x = NUser i /\ is_sym (p_rs p) i = true /\ rw_name p x = NOvld).
+        { destruct x; simpl; auto. destruct (is_sym (p_rs p) i) eqn:Er; eauto. }
+        destruct Hcase as [-> | (i & -> & Er & ->)].
+        + pose proof (lookup_chain_rel W p ugl mself s s' rho x Hs H H2) as Hl. unfold RewriteRel.orel in Hl.
+          destruct (LC false s rho x), (LC true s' rho x); try contradiction; simpl; auto.
+        + assert (Hm : a_method (p_anal p) = false).
+          { simpl in H0. rewrite Er in H0. simpl in H0. rewrite !andb_true_r in H0. exact H0. }
+          simpl in H1.
+          assert (Hsp : special p (NUser i) = true) by (simpl; rewrite Er; reflexivity).
+          destruct (lc_special s s' rho (NUser i) false Hs Hsp) as [-> _].
+          destruct (lc_special s s' rho NOvld true Hs eq_refl) as [_ ->].
+          simpl. rewrite H1, Er. simpl. apply vr_rec. exact Hm.
+      - (* EAttr *) intros e IH a Hd k rho s s' Hs Ht. simpl in Hd. rwstep. rewrite !ev_EAttr.
+        eapply rsim_bind; [apply IH; auto|]. intros v v' s1 s1' E E' Hv Hs1. apply rsim_ret; auto.
+        rewrite (vrel_shape p _ _ Hv). apply orel_lift.
+      - (* EBin *) intros op a IHa b IHb Hd k rho s s' Hs Ht. simpl in Hd. bsplit. rwstep. rewrite !ev_EBin.
+        eapply rsim_bind; [apply IHa; auto|]. intros va va' s1 s1' E E' Hva Hs1.
+        destruct (stepR _ _ _ _ _ Ht E') as [Ht1 _].
+        eapply rsim_bind; [apply IHb; auto|]. intros vb vb' s2 s2' E2 E2' Hvb Hs2. apply rsim_ret; auto.
+        rewrite (vrel_shape p _ _ Hva), (vrel_shape p _ _ Hvb). apply orel_lift.
+      - (* EBool *) intros o es IH Hd k rho s s' Hs Ht. simpl in Hd. rwstep. rewrite !ev_EBool.
+        apply (IH Hd); auto.
+      - (* EIf *) intros c IHc a IHa b IHb Hd k rho s s' Hs Ht. simpl in Hd. bsplit. rwstep. rewrite !ev_EIf.
+        eapply rsim_bind; [apply IHc; auto|]. intros vc vc' s1 s1' E E' Hvc Hs1.
+        destruct (stepR _ _ _ _ _ Ht E') as [Ht1 _]. rewrite (vrel_shape p _ _ Hvc).
+        destruct (truthy (shape vc')); [apply IHa | apply IHb]; auto.
+      - (* ECall *) intros f IHf ar IHa kw IHk Hd k rho s s' Hs Ht. simpl in Hd.
+        assert (Hgen : dom p f = true -> dom_args p ar = true -> dom_kws p kw = true ->
+                       forall k1 k2, rsim vrel (EV false cb rho (ECall f ar kw) s)
+                         (EV true cb' rho (ECall (fst (rw p k f)) (fst (rw_args p k1 ar)) (fst (rw_kws p k2 kw))) s')).
+        { intros Hdf Hda Hdk k1 k2. rewrite !ev_ECall.
+          eapply rsim_bind; [apply IHf; auto|]. intros vf vf' s1 s1' E E' Hvf Hs1.
+          destruct (stepR _ _ _ _ _ Ht E') as [Ht1 _].
+          eapply rsim_bind; [apply (IHa Hda); auto|]. intros vs vs' s2 s2' E2 E2' Hvs Hs2.
+          pose proof (stepRA _ _ _ _ _ Ht1 E2') as Ht2.
+          eapply rsim_bind; [apply (IHk Hdk); auto|]. intros ks ks' s3 s3' E3 E3' Hks Hs3.
+          apply apply_rel; auto. }
+        cbn [rw]. destruct (site p f) as [cn|] eqn:Es; [destruct (has_star ar) eqn:Est|]; bsplit; dlet; nrm; cbn [fst snd].
+        + apply Hgen; auto.
+        + apply site_case; auto.
+          * apply (IHa ltac:(assumption) (S k) rho s s' Hs Ht); auto.
+          * intros s2 s2' Hs2 Ht2. apply (IHk ltac:(assumption) _ rho s2 s2' Hs2 Ht2); auto.
+            pose proof (rw_pos_mono p ar k 0 (S k)). lia.
+        + apply Hgen; auto.
+      - (* ENamed *) intros x e IH Hd k rho s s' Hs Ht. simpl in Hd. bsplit. rwstep.
+        destruct (binder_not_special x H) as (Hsp & Htmp & ->). rewrite !ev_ENamed.
+        eapply rsim_bind; [apply IH; auto|]. intros v v' s1 s1' E E' Hv Hs1. apply rsim_ret; auto.
+        apply assign_rel; auto.
+      - (* ELam *) intros ps b IH Hd k rho s s' Hs Ht. simpl in Hd. bsplit. rwstep. rewrite !ev_ELam.
+        apply rsim_ret; auto. simpl. constructor; auto.
+      - (* EComp *) intros elt IHe x it IHi conds IHc Hd k rho s s' Hs Ht. simpl in Hd. bsplit. rwstep.
+        destruct (binder_not_special x H) as (Hsp & Htmp & ->). rewrite !ev_EComp.
+        eapply rsim_bind; [apply IHi; auto|]. intros vi vi' s1 s1' E E' Hvi Hs1.
+        destruct (stepR _ _ _ _ _ Ht E') as [Ht1 _].
+        pose proof (items_rel _ _ Hvi) as Hit.
+        destruct (items vi) as [l|], (items vi') as [l'|]; try contradiction; [|apply rsim_ret; simpl; auto].
+        rewrite <- (frames_len W p s1 s1' Hs1).
+        apply comp_loop_sim;
+          [ assumption
+          | intros; apply IHe; auto
+          | intros k0 rho0 s0 s0' Hs0 Ht0; destruct (IHc ltac:(assumption) k0 rho0 s0 s0' Hs0 Ht0) as (_ & _ & Hc3); exact Hc3
+          | assumption
+          | constructor
+          | apply push_rel; auto; repeat split; simpl; auto; intros y Hy; exact I
+          | ].
+        assert (Hn : nth_error (frames (push W s1' {| f_comp := true; f_vars := [] |})) (length (frames s1)) =
+                     Some {| f_comp := true; f_vars := [] |}).
+        { simpl. rewrite (frames_len W p s1 s1' Hs1). rewrite nth_error_app2 by lia. rewrite Nat.sub_diag. reflexivity. }
+        cbn [tgt_fixed]. rewrite Hn. cbn [f_comp]. eapply tgt_fixed_ext; [apply ext_push | exact Ht1].
+      - (* EFstr *) intros es IH Hd k rho s s' Hs Ht. simpl in Hd. rwstep. rewrite !ev_EFstr.
+        eapply rsim_bind; [apply (IH Hd); auto|]. intros vs vs' s1 s1' E E' Hvs Hs1. apply rsim_ret; auto.
+        simpl. rewrite (shapes_rel p _ _ Hvs). apply vrel_inj.
+      - (* EEffect *) intros t e IH Hd k rho s s' Hs Ht. simpl in Hd. rwstep. rewrite !ev_EEffect.
+        eapply rsim_bind; [apply IH; auto|]. intros v v' s1 s1' E E' Hv Hs1. apply rsim_ret; auto.
+        rewrite (vrel_shape p _ _ Hv). replace (s_world W s1) with (s_world W s1') by (symmetry; apply Hs1).
+        apply log_rel. assumption.
+      - (* ETuple *) intros es IH Hd k rho s s' Hs Ht. simpl in Hd. rwstep. rewrite !ev_ETuple.
+        eapply rsim_bind; [apply (IH Hd); auto|]. intros vs vs' s1 s1' E E' Hvs Hs1. apply rsim_ret; auto.
+        simpl. constructor. assumption.
+      - (* ESub *) intros a IHa i IHi Hd k rho s s' Hs Ht. simpl in Hd. bsplit. rwstep. rewrite !ev_ESub.
+        eapply rsim_bind; [apply IHa; auto|]. intros va va' s1 s1' E E' Hva Hs1.
+        destruct (stepR _ _ _ _ _ Ht E') as [Ht1 _].
+        eapply rsim_bind; [apply IHi; auto|]. intros vb vb' s2 s2' E2 E2' Hvb Hs2. apply rsim_ret; auto.
+        apply subscript_rel; auto.
+      - (* ENil *) intros Hd k rho s s' Hs Ht. cbn [rw_list fst]. split; [|split].
+        + rewrite !evl_nil. apply rsim_ret; auto. simpl. constructor.
+        + intros o. simpl. split; auto. constructor.
+        + simpl. split; auto.
+      - (* ECons *) intros e IHe r IHr Hd k rho s s' Hs Ht. simpl in Hd. bsplit. rwstep. split; [|split].
+        + rewrite !evl_cons. eapply rsim_bind; [apply IHe; auto|]. intros v v' s1 s1' E E' Hv Hs1.
+          destruct (stepR _ _ _ _ _ Ht E') as [Ht1 _].
+          eapply rsim_bind; [apply (IHr ltac:(assumption)); auto|]. intros vs vs' s2 s2' E2 E2' Hvs Hs2.
+          apply rsim_ret; auto. simpl. constructor; auto.
+        + intros o. rewrite !evb_cons.
+          remember (fst (rw_list p (snd (rw p k e)) r)) as r' eqn:Er'.
+          assert (Hshape : match r, r' with ENil, ENil => True | ECons _ _, ECons _ _ => True | _, _ => False end).
+          { subst r'. destruct r; cbn [rw_list]; dlet; cbn [fst]; exact I. }
+          destruct r as [|e2 r2], r' as [|e2' r2']; try contradiction.
+          * apply IHe; auto.
+          * eapply rsim_bind; [apply IHe; auto|]. intros v v' s1 s1' E E' Hv Hs1.
+            destruct (stepR _ _ _ _ _ Ht E') as [Ht1 _]. rewrite (vrel_shape p _ _ Hv).
+            destruct (Bool.eqb (truthy (shape v')) o); [apply rsim_ret; auto|].
+            rewrite Er'. apply (IHr ltac:(assumption)); auto.
+        + rewrite !evc_cons. eapply rsim_bind; [apply IHe; auto|]. intros v v' s1 s1' E E' Hv Hs1.
+          destruct (stepR _ _ _ _ _ Ht E') as [Ht1 _]. rewrite (vrel_shape p _ _ Hv).
+          destruct (truthy (shape v')); [apply (IHr ltac:(assumption)); auto | apply rsim_ret; simpl; auto].
+      - (* ANil *) intros Hd k rho s s' Hs Ht. split.
+        + cbn [rw_args fst]. rewrite !eva_nil. apply rsim_ret; auto. simpl. constructor.
+        + intros _ n i Hn. cbn [rw_pos fst]. rewrite eva_nil, evl_nil. simpl. split; auto.
+          exists []. repeat split; auto. intros j v' Hj. destruct j; discriminate.
+      - (* ACons *) intros st e IHe r IHr Hd k rho s s' Hs Ht. simpl in Hd. bsplit. split.
+        + rwstep. rewrite !eva_cons. eapply rsim_bind; [apply IHe; auto|]. intros v v' s1 s1' E E' Hv Hs1.
+          destruct (stepR _ _ _ _ _ Ht E') as [Ht1 _].
+          destruct st.
+          * pose proof (items_rel _ _ Hv) as Hit.
+            destruct (items v) as [l|], (items v') as [l'|]; try contradiction; [|apply rsim_ret; simpl; auto].
+            eapply rsim_bind; [apply (IHr ltac:(assumption)); auto|]. intros vs vs' s2 s2' E2 E2' Hvs Hs2.
+            apply rsim_ret; auto. simpl. apply Forall2_app; auto.
+          * eapply rsim_bind; [apply (IHr ltac:(assumption)); auto|]. intros vs vs' s2 s2' E2 E2' Hvs Hs2.
+            apply rsim_ret; auto. simpl. constructor; auto.
+        + intros Hstar n i Hn. simpl in Hstar. apply orb_false_iff in Hstar. destruct Hstar as [-> Hstar].
+          rwstep. rewrite eva_cons, evl_cons, (ev_lookup_call n (KPos i) _ rho s s' Hs).
+          pose proof (IHe ltac:(assumption) k rho s s' Hs Ht) as He.
+          destruct (EV false cb rho e s) as [[[v|x] s1]|] eqn:E1;
+            destruct (EV true cb' rho (fst (rw p k e)) s') as [[[v'|x'] s1']|] eqn:E1'; simpl in He; try tauto; cbn [obind]; try (simpl; exact He); try (simpl; exact I).
+          destruct He as [Hv Hs1]. destruct (stepR _ _ _ _ _ Ht E1') as [Ht1 _].
+          set (sa' := assign W s1' rho (NTmp n (KPos i)) v').
+          assert (Hsa : srel s1 sa') by (apply assign_tmp_rel; auto).
+          assert (Hta : FIXED sa' rho) by (apply fixed_assign; auto).
+          pose proof (rw_mono p e k) as Hmono.
+          pose proof (proj2 (IHr ltac:(assumption) (snd (rw p k e)) rho s1 sa' Hsa Hta) Hstar n (S i) ltac:(lia)) as Hr.
+          destruct (EVA false cb rho r s1) as [[[vs|x] s2]|] eqn:E2;
+            destruct (EVL true cb' rho (fst (rw_pos p n (S i) (snd (rw p k e)) r)) sa') as [[[ts|x'] s2']|] eqn:E2';
+            simpl in Hr; try tauto; cbn [obind]; simpl; auto.
+          destruct Hr as (Hs2 & vs' & Hvs & -> & Hlen & Hget). split; auto.
+          exists (v' :: vs'). repeat split; auto.
+          * simpl. rewrite Hlen. reflexivity.
+          * intros j w Hj. destruct (stepRL _ _ _ _ _ Hta E2') as [_ Hstab]. destruct j as [|j].
+            -- simpl in Hj. injection Hj as <-. rewrite Nat.add_0_r. rewrite Hstab.
+               ++ apply tget_assign. assumption.
+               ++ destruct (proj1 (proj2 (proj2 (asg_small_all p))) r ltac:(assumption) (snd (rw p k e)) n (KPos i)) as [_ Hx]; [lia|].
+                  apply Hx. intros _ j Hj Heq. injection Heq as Heq. lia.
+            -- simpl in Hj. replace (i + S j) with (S i + j) by lia. apply Hget. assumption.
+      - (* KNil *) intros Hd k rho s s' Hs Ht. split.
+        + cbn [rw_kws fst]. rewrite !evk_nil. apply rsim_ret; auto. simpl. constructor.
+        + intros _ _ n Hn. cbn [rw_kwparts fst]. rewrite evk_nil, evl_nil. simpl. split; auto.
+          exists []. repeat split; auto. constructor. intros k0 v0 [].
+      - (* KCons *) intros o e IHe r IHr Hd k rho s s' Hs Ht. simpl in Hd. bsplit. split.
+        + rwstep. rewrite !evk_cons. eapply rsim_bind; [apply IHe; auto|]. intros v v' s1 s1' E E' Hv Hs1.
+          destruct (stepR _ _ _ _ _ Ht E') as [Ht1 _].
+          destruct o as [kn|].
+          * eapply rsim_bind; [apply (IHr ltac:(assumption)); auto|]. intros ks ks' s2 s2' E2 E2' Hks Hs2.
+            apply rsim_ret; auto. simpl. constructor; auto.
+          * pose proof (unpack_dict_rel _ _ Hv) as Hit.
+            destruct (unpack_dict v) as [l|], (unpack_dict v') as [l'|]; try contradiction; [|apply rsim_ret; simpl; auto].
+            eapply rsim_bind; [apply (IHr ltac:(assumption)); auto|]. intros ks ks' s2 s2' E2 E2' Hks Hs2.
+            apply rsim_ret; auto. simpl. apply Forall2_app; auto.
+        + intros Hnamed Hnodup n Hn. simpl in Hnamed. apply andb_true_iff in Hnamed. destruct Hnamed as [Hko Hnamed].
+          destruct o as [kn|]; [|discriminate]. simpl in Hnodup. apply andb_true_iff in Hnodup. destruct Hnodup as [Hfresh Hnodup].
+          apply negb_true_iff in Hfresh.
+          rwstep. rewrite evk_cons, evl_cons, (ev_kwpart n kn _ rho s s' Hs).
+          pose proof (IHe ltac:(assumption) k rho s s' Hs Ht) as He.
+          destruct (EV false cb rho e s) as [[[v|x] s1]|] eqn:E1;
+            destruct (EV true cb' rho (fst (rw p k e)) s') as [[[v'|x'] s1']|] eqn:E1'; simpl in He; try tauto; cbn [obind]; try (simpl; exact He); try (simpl; exact I).
+          destruct He as [Hv Hs1]. destruct (stepR _ _ _ _ _ Ht E1') as [Ht1 _].
+          set (sa' := assign W s1' rho (NTmp n (KKw (Some kn))) v').
+          assert (Hsa : srel s1 sa') by (apply assign_tmp_rel; auto).
+          assert (Hta : FIXED sa' rho) by (apply fixed_assign; auto).
+          pose proof (rw_mono p e k) as Hmono.
+          pose proof (proj2 (IHr ltac:(assumption) (snd (rw p k e)) rho s1 sa' Hsa Hta) Hnamed Hnodup n ltac:(lia)) as Hr.
+          destruct (EVK false cb rho r s1) as [[[ks|x] s2]|] eqn:E2;
+            destruct (EVL true cb' rho (fst (rw_kwparts p n (snd (rw p k e)) r)) sa') as [[[ts|x'] s2']|] eqn:E2';
+            simpl in Hr; try tauto; cbn [obind]; simpl; auto.
+          destruct Hr as (Hs2 & ks' & Hks & -> & Hkeys & Hget). split; auto.
+          exists ((kn, v') :: ks'). repeat split; auto.
+          * constructor; auto.
+          * simpl. rewrite Hkeys. reflexivity.
+          * intros k0 w Hin. destruct (stepRL _ _ _ _ _ Hta E2') as [_ Hstab]. destruct Hin as [Heq|Hin].
+            -- injection Heq as <- <-. rewrite Hstab.
+               ++ apply tget_assign. assumption.
+               ++ destruct (proj2 (proj2 (proj2 (asg_small_all p))) r ltac:(assumption) (snd (rw p k e)) n (KKw (Some kn))) as [_ Hx]; [lia|].
+                  apply Hx. intros _. apply mem_okey_in. assumption.
+            -- apply Hget. assumption.
     Qed.
   End WithCb.
 End Sim.
